@@ -6,4 +6,6 @@ export CARGO_NET_OFFLINE=true
 mkdir -p /verif/.target /verif/evidence /verif/replays
 cd /verif/nlmc
 cargo build --release --offline
+# second build profile (debug assertions + overflow checks) used by C15 and C16
+cargo build --profile devchk --offline
 /verif/.target/release/nlmc selftest
